@@ -26,6 +26,16 @@ CLAIMED['C14'] = dict(
     note='Trusted: logos contract (0<=start<=end<=len on char boundaries), UTF-8 decoding model, z3. Kernel-level claim only; bounds in the evidence.',
     design='DESIGN.md section 3 / C14')
 
+CLAIMED['C07'] = dict(
+    technique='symbolic execution of rustc MIR (M2S) with assume-guarantee per rule: callee verdicts are uninterpreted predicates, z3 decides verdict == reference rule; models replayed through the real SubtypeChecker',
+    text='For every rule function of SubtypeChecker (is_subtype_, ty, func, instance_exports, interface, world, module, core_extern, core_func, '
+         'value_type, defined_type, result, enum_type, flags, record, variant, tuple, payload, primitive, resource) plus the memo wrapper and '
+         'Types::resolve_value_type: on all lazily instantiated inputs with collections up to K entries, the verdict equals the reference '
+         'component-model rule over the sub-verdicts, with no reachable panic. By induction on depth this fixes the implemented relation for '
+         'types of any depth. Agreement of the reference rules with wasmparser, and resources beyond same-name, are outside the claim.',
+    note='Trusted: reference rules in specs/c07.py (validated on Ok/Err witnesses against the real checker each run), M2S, z3, derive(PartialEq) of core types as uninterpreted equalities.',
+    design='DESIGN.md section 3 / C07')
+
 NOT_APPLICABLE = {
  'C01': 'validity is defined by an external 60 kLoC validator over whole-pipeline output; neither it nor the encoder can be executed symbolically here (DESIGN.md section 4)',
  'C05': 'needs wit-component as reference encoder and the validator subtype relation as comparison; out of reach of symbolic execution (DESIGN.md section 4)',
